@@ -257,14 +257,16 @@ def recursion_via(exc):
     """what recursed (from the traceback of the real code): 'include' = p_compilerDirective frames (a file including
     itself / an include cycle), 'superclass' = p_mp_createClass repairing CIM_ERR_INVALID_SUPERCLASS (10) by compiling the
     superclass file, 'dependency' = p_mp_createClass repairing an unresolved reference/EmbeddedInstance class
-    (codes 4, 6, 1), else 'other'"""
+    (codes 4, 6, 1), 'qualifier_files' = p_qualifier compiling qualifiers.mof / qualifiers_optional.mof, else 'other'"""
     tb = exc.__traceback__
-    n_inc = n_super = n_dep = 0
+    n_inc = n_super = n_dep = n_qual = 0
     while tb is not None:
         code = tb.tb_frame.f_code
         if code.co_filename.endswith('_mof_compiler.py'):
             if code.co_name == 'p_compilerDirective':
                 n_inc += 1
+            elif code.co_name == 'p_qualifier':
+                n_qual += 1
             elif code.co_name == 'p_mp_createClass':
                 ec = tb.tb_frame.f_locals.get('errcode')
                 if ec == 10:
@@ -272,10 +274,14 @@ def recursion_via(exc):
                 elif ec in (4, 6, 1):
                     n_dep += 1
         tb = tb.tb_next
-    best = max(n_inc, n_super, n_dep)
+    best = max(n_inc, n_super, n_dep, n_qual)
     if best < 3:
         return 'other'
-    return 'include' if best == n_inc else ('superclass' if best == n_super else 'dependency')
+    if best == n_inc:
+        return 'include'
+    if best == n_super:
+        return 'superclass'
+    return 'dependency' if best == n_dep else 'qualifier_files'
 
 
 def new_compiler(handle=None, search_paths=None):
